@@ -191,7 +191,7 @@ Fixpoint ops_eqb (a b : list op) : bool :=
 Definition chain_sizes : list nat := [0; 1; 2; 3; 4; 5]%nat.   (* metrics 1 + remoting 1 + cluster <= 3 *)
 Definition bools2 : list (bool * bool) := [(false, false); (true, false); (true, true)].
 
-(** thread kinds of the harness: 0 Start(), 1 Stop(...), 2 guard goroutine, 3 cancel *)
+(** thread kinds of the harness: 0 Start(), 1 Stop(...), 2 guard goroutine, 3 cancel, 4 external System.ActorOf caller *)
 Definition shapes_of_kind (k : N) : list shape :=
   match k with
   | 0 => ShStartRepeat :: map ShStart chain_sizes ++
@@ -199,6 +199,7 @@ Definition shapes_of_kind (k : N) : list shape :=
   | 1 => map (fun ec => ShStop (fst ec) (snd ec)) bools2
   | 2 => map (fun ec => ShGuard (fst ec) (snd ec)) bools2
   | 3 => [ShCancel]
+  | 4 => [ShActorOf]
   | _ => []
   end.
 
